@@ -70,7 +70,7 @@ def build_instance(case, oracle, order, probe="interior", opts=None, with_T=True
     rel = core.AurelCore(fd, **kw)
     for k, v in F.inputs().items():
         rel.data[k] = v
-    if with_T and oracle is not None:
+    if with_T and oracle is not None and not (opts or {}).get("_noT"):
         kt = as_array(oracle["kappaT"], "kappaT")
         rel.data["Tdown4"] = (kt / KAPPA)[(...,) + (None,) * 3] * np.ones(fd.x.shape)
     if (opts or {}).get("_moving_fluid"):
